@@ -41,6 +41,12 @@ def run(rep, tier, seed):
     import corr_eqvalid
     mk, log = vlib.make(['lib/EqCorr.vo'])
     rep.obligation('make lib/EqCorr.vo (rational instance executed by the correspondence)', mk, log[-1500:])
+    cs = corr_eqvalid.class_structure('C17')
+    broken = [t for t, o in cs if not o]
+    struct_ok = not broken
+    rep.obligation('the model still mirrors the class structure (%d reflection checks: which class defines equals / to_array, no overrides, MROs)' % len(cs),
+                   struct_ok, 'model no longer mirrors the class structure: ' + '; '.join(broken))
+    rep.cov['class_structure_checks'] = len(cs)
     ncorp, corp_bad = corr_eqvalid.c17_corpus(CORPUS)
     rep.obligation('corpus of minimised past failures (%d pairs, corpus/c17.json) satisfies the specification' % ncorp, not corp_bad,
                    json.dumps(corp_bad[:2], default=str)[:1500])
@@ -62,12 +68,16 @@ def run(rep, tier, seed):
     rep.cov['correspondence'] = {'pairs': corr['evaluations'], 'agree': corr['agree'], 'coq_files': corr['files'], 'verdict_distribution': corr['hist'],
                                  'by_category': corr['by_category'], 'generator': corr['stats'],
                                  'perturbation_magnitudes_times_tol': [0, 1e-12, 1e-9, 1e-3, 1e3], 'tolerances': [1e-6, 1e-2],
+                                 'structured_multi_component_differences': corr['stats'].get('structured_transforms', []),
                                  'number_scales': ['all zero', 'O(1)', 'O(4096)']}
     rep.cov['rule'] = ('objects are built from one description that is rendered both as a Gallina literal over Q and as graphslam objects; '
                        'poses: 4 classes + 3 malformed lengths x 3 number scales, all ordered pairs x 2 tol, every single-component perturbation x 5 magnitudes x 2 tol; '
                        'vertices: 2 ids x 4 classes x 3 scales likewise; edges: 1134 shapes = class{Odometry,Landmark,CustomA,CustomB} x vertex_ids{[1,2],[2,1],[1,2,3]} '
                        'x information.shape{(2,2),(3,3),(2,3)} x estimate{4 pose classes, ndarray(2,), ndarray(3,), float} x offset{4 pose classes, None} x offset_id{None,0,1}: '
                        'ALL ordered pairs in the thorough tier, all ordered pairs of a seeded subset in quick, plus single-component perturbations; '
+                       'structured multi-component differences, both directions, of every number array of poses / vertices / edges (information, estimate, offset) / graphs: '
+                       'b = -a, 2a, a/2, components rotated, position negated, orientation (angle / quaternion) negated, position zero with orientation negated, '
+                       'position mirrored with orientation reversed, and all arrays of the object at once; '
                        'graphs: 3 families x 12 variants (size, order of edges/vertices, edge class, pose class, ids, offset_id, empty) all ordered pairs + perturbations. '
                        'distinct by construction; non-trivial = the implementation returned a bool (not an exception)')
     rep.cov['samples'] = corr['samples'] or [{'note': 'no case ran'}]
@@ -86,8 +96,8 @@ def run(rep, tier, seed):
             if len(seen) > 4:
                 break
             rep.violation('oracle', dict(p, n_failures=len(corr['oracle_violations'])), finding_key=k)
-    elif not (ok and corr_ok and mk):
-        what = []
+    elif not (ok and corr_ok and mk and struct_ok):
+        what = ['model no longer mirrors the class structure: ' + t for t in broken]
         if not ok:
             what.append('a theorem of props/C17.v or its proof cone no longer checks')
         if not corr_ok:
